@@ -19,9 +19,42 @@ pub struct Case {
     /// statement with DISTINCT
     pub query: Select,
     pub lines: Vec<String>,
+    /// long-gap mode: `lines`, then this many pairwise distinct filler rows, then `lines` again
+    #[serde(default)]
+    pub filler: usize,
 }
 
 pub struct C08;
+
+impl Case {
+    pub fn all_lines(&self) -> Vec<String> {
+        if self.filler == 0 {
+            return self.lines.clone();
+        }
+        let mut out = self.lines.clone();
+        let mut t = Tape::new(&[]);
+        for i in 0..self.filler {
+            let values: Vec<V> = self
+                .table
+                .cols
+                .iter()
+                .map(|(_, ty)| match ty {
+                    Ty::Int => V::Int(1000 + i as i64),
+                    Ty::Real => V::Real(1000.0 + i as f64),
+                    Ty::Text => V::Text(format!("f{}", i)),
+                    Ty::Ts => V::Ts((1_700_000_000 + i as i64 * 60) * 1_000_000),
+                    Ty::Iv => V::Iv((100 + i as i64) * 1_000_000),
+                    Ty::Bool => V::Bool(i % 2 == 0),
+                    Ty::IntArr => V::Array(vec![V::Int(i as i64)]),
+                    Ty::TextArr => V::Array(vec![V::Text(format!("f{}", i))]),
+                })
+                .collect();
+            out.push(self.table.line(&values, &mut t));
+        }
+        out.extend(self.lines.iter().cloned());
+        out
+    }
+}
 
 fn j_eq(a: &J, b: &J) -> bool {
     match (a, b) {
@@ -46,24 +79,94 @@ fn j_eq(a: &J, b: &J) -> bool {
     }
 }
 
-/// first-occurrence dedup of JSON records under reference tuple equality
+fn canonical(j: &J, out: &mut String) {
+    match j {
+        J::Null => out.push_str("null"),
+        J::Bool(b) => out.push_str(if *b { "true" } else { "false" }),
+        J::Str(s) => {
+            out.push('"');
+            out.push_str(&s.replace('\\', "\\\\").replace('"', "\\\""));
+            out.push('"');
+        }
+        J::Num(n) => {
+            if J::is_integer_literal(n) {
+                match n.parse::<i64>() {
+                    Ok(i) => out.push_str(&i.to_string()),
+                    Err(_) => out.push_str(n),
+                }
+            } else {
+                match n.parse::<f64>() {
+                    Ok(f) if f == f.trunc() && f.abs() < 9e15 => out.push_str(&(f as i64).to_string()),
+                    Ok(f) => out.push_str(&format!("{:?}", f)),
+                    Err(_) => out.push_str(n),
+                }
+            }
+        }
+        J::Arr(items) => {
+            out.push('[');
+            for i in items {
+                canonical(i, out);
+                out.push(',');
+            }
+            out.push(']');
+        }
+        J::Obj(items) => {
+            out.push('{');
+            for (k, v) in items {
+                out.push_str(k);
+                out.push(':');
+                canonical(v, out);
+                out.push(',');
+            }
+            out.push('}');
+        }
+    }
+}
+
+/// first-occurrence dedup of JSON records under reference tuple equality (numbers by value)
 fn dedup_records(records: &[String]) -> Result<Vec<String>, String> {
-    let mut seen: Vec<J> = Vec::new();
+    let mut seen: std::collections::HashSet<String> = std::collections::HashSet::new();
     let mut out = Vec::new();
     for r in records {
         let j = parse_json(r)?;
-        if !seen.iter().any(|s| j_eq(s, &j)) {
-            seen.push(j);
+        let mut key = String::new();
+        canonical(&j, &mut key);
+        if seen.insert(key) {
             out.push(r.clone());
         }
     }
     Ok(out)
 }
 
+fn v_key(v: &V, out: &mut String) {
+    match v {
+        V::Null => out.push('n'),
+        V::Int(i) => out.push_str(&format!("i{};", i)),
+        V::Real(r) => out.push_str(&format!("r{};", if *r == 0.0 { 0u64 } else { r.to_bits() })),
+        V::Bool(b) => out.push_str(if *b { "T" } else { "F" }),
+        V::Text(s) => out.push_str(&format!("t{:?};", s)),
+        V::Ts(m) => out.push_str(&format!("s{};", m)),
+        V::Iv(m) => out.push_str(&format!("v{};", m)),
+        V::Array(items) => {
+            out.push('[');
+            for i in items {
+                v_key(i, out);
+            }
+            out.push(']');
+        }
+    }
+}
+
 fn dedup_rows(rows: &[Vec<V>]) -> Vec<Vec<V>> {
+    let mut seen: std::collections::HashSet<String> = std::collections::HashSet::new();
     let mut out: Vec<Vec<V>> = Vec::new();
     for r in rows {
-        if !out.iter().any(|o| o.len() == r.len() && o.iter().zip(r.iter()).all(|(a, b)| a.ref_eq(b) || (a.is_null() && b.is_null()))) {
+        let mut key = String::new();
+        for v in r {
+            v_key(v, &mut key);
+            key.push('|');
+        }
+        if seen.insert(key) {
             out.push(r.clone());
         }
     }
@@ -161,16 +264,31 @@ impl Property for C08 {
             }
             lines.push(g.table.line(&row, t));
         }
-        Case { table: g.table, query: g.query, lines }
+        // long-gap mode: recurrence after thousands of other distinct tuples
+        let mut filler = 0;
+        let mut query = g.query;
+        if query.group_by.is_empty() && query.having.is_none() && !query.items.iter().any(|(e, _)| matches!(e, crate::sql::E::Agg(_, _, _))) && t.chance(1, 60) {
+            filler = match ctx.tier {
+                crate::run::Tier::Quick => *t.pick(&[300, 1100, 2500, 5000]),
+                crate::run::Tier::Thorough => *t.pick(&[300, 1100, 2500, 5000, 20_000, 70_000]),
+            };
+            query.items = vec![(crate::sql::E::Star, None)];
+            query.filter = None;
+        }
+        Case { table: g.table, query, lines, filler }
     }
 
     fn check(&self, case: &Case, ctx: &Ctx, obs: &mut Obs) -> Result<(), Failure> {
+        let lines_all = case.all_lines();
+        if case.filler > 0 {
+            obs.label("long-gap");
+        }
         let mut plain_q = case.query.clone();
         plain_q.distinct = false;
         let with = prepare(ctx, &case.table, None, &case.query, &[], "c08")?;
         let without = prepare(ctx, &case.table, None, &plain_q, &[], "c08")?;
-        let files = scratch_files(ctx, "c08", &[lines_to_bytes(&case.lines)]);
-        let context = format!("query: {}\n  table: {}\n  lines: {:?}", with.text, with.defs, case.lines);
+        let files = scratch_files(ctx, "c08", &[lines_to_bytes(&lines_all)]);
+        let context = format!("query: {}\n  table: {}\n  lines: {:?}{}", with.text, with.defs, case.lines, if case.filler > 0 { format!(" then {} distinct filler rows, then the same lines again", case.filler) } else { String::new() });
         let panic_fail = |p: String| Failure::new(format!("panic: {}", crate::run::panic_class(&p)), format!("panicked: {}\n  {}", p, context));
         let aggregate = with.statement.is_aggregate();
         let kind = if aggregate { if case.query.having.is_some() { "aggregate+having" } else { "aggregate" } } else { "select" };
@@ -179,7 +297,7 @@ impl Property for C08 {
         }
 
         // NaN tuples (printed as null in JSON) belong to C16: detect them on the structured per-line results first
-        if let Ok(Some(tp)) = per_line_tables(&without, &case.lines) {
+        if let Ok(Some(tp)) = per_line_tables(&without, &lines_all) {
             if tp.iter().flatten().flatten().any(|v| matches!(v, V::Real(r) if !r.is_finite())) {
                 obs.unspecified += 1;
                 return Ok(());
@@ -197,10 +315,10 @@ impl Property for C08 {
         let precs = p.records();
         let want = dedup_records(&precs).map_err(|e| Failure::new("undecodable-output", e))?;
         // non-triviality
-        let parsed: Vec<J> = precs.iter().filter_map(|r| parse_json(r).ok()).collect();
+        let parsed: Vec<J> = precs.iter().take(40).filter_map(|r| parse_json(r).ok()).collect();
         let mut non_adjacent = false;
         let mut one_col = false;
-        for i in 0..parsed.len() {
+        for i in 0..parsed.len().min(40) {
             for k in 0..i {
                 if j_eq(&parsed[i], &parsed[k]) && i - k >= 2 {
                     non_adjacent = true;
@@ -223,13 +341,19 @@ impl Property for C08 {
             let neg0 = if precs.iter().any(|r| r.contains("-0.0")) { "+negative-zero" } else { "" };
             return Err(Failure::new(
                 format!("batch: {}{}", kind, neg0),
-                format!("DISTINCT printed {:?}\n  without DISTINCT: {:?}\n  expected (first occurrences): {:?}\n  {}", d.records(), precs, want, context),
+                if precs.len() > 40 {
+                    let got = d.records();
+                    let first = got.iter().zip(want.iter()).position(|(a, b)| a != b).unwrap_or(got.len().min(want.len()));
+                    format!("DISTINCT printed {} records, the first occurrences among the {} records without DISTINCT are {}; first difference at record {}: {:?} vs {:?}\n  {}", got.len(), precs.len(), want.len(), first, got.get(first), want.get(first), context)
+                } else {
+                    format!("DISTINCT printed {:?}\n  without DISTINCT: {:?}\n  expected (first occurrences): {:?}\n  {}", d.records(), precs, want, context)
+                },
             ));
         }
 
         // every per-line refresh
-        let td = per_line_tables(&with, &case.lines).map_err(panic_fail)?;
-        let tp = per_line_tables(&without, &case.lines).map_err(panic_fail)?;
+        let td = per_line_tables(&with, &lines_all).map_err(panic_fail)?;
+        let tp = per_line_tables(&without, &lines_all).map_err(panic_fail)?;
         if let (Some(td), Some(tp)) = (td, tp) {
             let has_nan = |t: &Vec<Vec<Vec<V>>>| t.iter().flatten().flatten().any(|v| matches!(v, V::Real(r) if !r.is_finite()));
             if has_nan(&td) || has_nan(&tp) {
